@@ -24,6 +24,7 @@ import hashlib
 import json
 import os
 import shutil
+import subprocess
 
 from .common import *
 from .cfgread import *
@@ -603,6 +604,36 @@ def check_edit(rep, ctx, rng, n):
     return bad
 
 
+def check_extra_script_include(rep, ctx):
+    """configuration lines given on the command line (-s / -r are read through an in-memory reader) that include a
+    file which differs from its committed version (the loader records `git diff` of every file it opens)"""
+    d = os.path.join(ctx.root, "gitrepo")
+    os.makedirs(d, exist_ok=True)
+    env = dict(os.environ, GIT_CONFIG_GLOBAL="/dev/null", GIT_CONFIG_SYSTEM="/dev/null")
+    with open(os.path.join(d, "x.cfg"), "w") as f:
+        f.write("  tempo 1s\n")
+    with open(os.path.join(d, "main.cfg"), "w") as f:
+        f.write("title t\n")
+    cmds = [["git", "init", "-q", "."], ["git", "add", "-A"], ["git", "-c", "user.email=v@v", "-c", "user.name=v", "commit", "-qm", "init"]]
+    for c in cmds:
+        if subprocess.run(c, cwd=d, env=env, capture_output=True).returncode != 0:
+            rep.count("git-unavailable")
+            return
+    with open(os.path.join(d, "x.cfg"), "w") as f:
+        f.write("  tempo 2s\n")
+    from . import e2e
+    pr = subprocess.run([e2e.BIN, "-n", "-q", "-s", "include x.cfg", "main.cfg"], cwd=d, env=env, capture_output=True, text=True, timeout=30)
+    rep.count("extra-script-include-of-a-modified-file")
+    if "panic:" in pr.stderr or pr.returncode not in (0, 1):
+        ctx.ofail.append({"what": "-s 'include x.cfg' of a file with an uncommitted change: the loader crashed: %s" % pr.stderr.strip().splitlines()[0:1],
+                          "tags": {"kind": "panic", "input": "extra-script-include"},
+                          "case": {"files": {"main.cfg": "title t\n", "x.cfg": "  tempo 2s\n"}, "args": ["-n", "-s", "include x.cfg", "main.cfg"],
+                                   "git": "run inside a git work tree in which x.cfg differs from its committed version"},
+                          "real": pr.stderr[-600:]})
+    elif pr.returncode != 0:
+        ctx.ofail.append({"what": "-s 'include x.cfg' rejected: %s" % pr.stderr[-300:], "tags": {"kind": "extra-script-include"}, "case": {}, "real": pr.stderr[-300:]})
+
+
 CORPUS = [
     {"files": {"main.cfg": b"script\nedit s/ab\nend\n"}, "tag": "corpus-edit"},
     {"files": {"main.cfg": b"audience\na expects always: 1 + \\ \nend\n"}, "tag": "corpus-expr-backslash"},
@@ -647,6 +678,7 @@ def run(tier, seed):
             check_case(ctx, gen_case(rng, mult), rng)
         gbad = check_gostr(rep, impl, model, rng, 400 if quick else 5000)
         ebad = check_edit(rep, ctx, rng, 150 if quick else 1500)
+        check_extra_script_include(rep, ctx)
         t_re = time.time()
         rex = c09re.run_extra(rep, impl, model, root, rng, quick, retbl, gen_valid)
         rep.count("re-extra-seconds", int(time.time() - t_re + 0.5))
